@@ -362,7 +362,10 @@ class Tokenizer:
                     last_token
                     and isinstance(token, CitationToken)
                     and token_is_from_nominative_reporter(last_token)
-                    and not token_is_from_nominative_reporter(token)
+                    and not (
+                        token.start > last_token.start
+                        and token.end <= last_token.end
+                    )
                 ):
                     # if a token has overlapping matches between a nominative
                     # reporter and another type of case citation, prefer the
